@@ -380,11 +380,22 @@ def translate_errors(out):
         if not isinstance(code, str):
             raise Abort("%s has no string code" % cls.__name__)
         rows.append("(%s, %s, %s)" % (cs(cls.__name__), cs(code), cs(cls.default_description)))
+    # every OCPP error class of the module, found without OCPPError.__subclasses__()
+    allrows = []
+    for name, cls in inspect.getmembers(ex, inspect.isclass):
+        if cls is not ex.OCPPError and issubclass(cls, ex.OCPPError) and cls.__module__ == ex.__name__:
+            if not isinstance(getattr(cls, "code", None), str):
+                raise Abort("%s has no string code" % name)
+            allrows.append("(%s, %s, %s)" % (cs(cls.__name__), cs(cls.code), cs(cls.default_description)))
     lines = ["(* GENERATED by harness/translate.py from ocpp/exceptions.py -- do not edit *)",
              "From Coq Require Import List String.", "From OV.Model Require Import Json.",
              "Import ListNotations.", "Local Open Scope string_scope.", "",
+             "(* what CallError.to_exception iterates: OCPPError.__subclasses__() in that order *)",
              "Definition errors : list (string * string * string) :=\n  %s." % clist(
-                 ["\n   " + r for r in rows])]
+                 ["\n   " + r for r in rows]),
+             "(* every class of ocpp.exceptions that is (transitively) an OCPPError *)",
+             "Definition all_error_classes : list (string * string * string) :=\n  %s." % clist(
+                 ["\n   " + r for r in allrows])]
     with open(os.path.join(out, "Errors.v"), "w") as fh:
         fh.write("\n".join(lines) + "\n")
     return len(rows)
